@@ -166,7 +166,7 @@ Definition labels_of (steps : list kstep) : list N := filter (fun l => negb (l =
 
 Definition crash_index (c : case) : nat :=
   match c_k c with
-  | 0 => length (run_steps c)
+  | 0 => List.length (run_steps c)
   | _ => kill_index (N.to_nat (c_k c) - 1) (run_steps c)
   end.
 
@@ -174,7 +174,7 @@ Definition model_state (c : case) : sfs :=
   crash_state RV HV true (run_acts c) (init_state c) (crash_index c) (c_cut c).
 
 Definition model_killed (c : case) : bool :=
-  (1 <=? c_k c) && (c_k c <=? N.of_nat (length (labels_of (run_steps c)))).
+  (1 <=? c_k c) && (c_k c <=? N.of_nat (List.length (labels_of (run_steps c)))).
 
 Definition model_labels (c : case) : list N :=
   if model_killed c then firstn (N.to_nat (c_k c)) (labels_of (run_steps c)) else labels_of (run_steps c).
@@ -194,8 +194,14 @@ Definition model_obs (c : case) : case :=
    point, trust anchor certificate and the status in its old or its new
    complete version, per action), no reader fails, the next commands work *)
 
-Definition ref_states (c : case) : list sfs :=
-  map (fun j => run_actions RV HV true (firstn j (run_acts c)) (init_state c)) (seq 0 (S (length (c_run c)))).
+(* the states after 0, 1, 2, ... completed actions *)
+Fixpoint ref_scan (acts : list action) (st : sfs) : list sfs :=
+  st :: match acts with
+        | [] => []
+        | a :: r => ref_scan r (run_action RV HV true a st)
+        end.
+
+Definition ref_states (c : case) : list sfs := ref_scan (run_acts c) (init_state c).
 
 Definition views_match (st : sfs) (obs : list (path * oview)) : bool :=
   forallb (fun po => oview_eqb (abs_view (view RV HV st (fst po))) (snd po)) obs.
